@@ -299,7 +299,7 @@ for k1 in _PK:
     for k2 in _PK:
         nm = "p_%s_%s" % (k1, k2)
         add(nm, Decl("P" + k1.capitalize() + k2.capitalize(), [("h", Bits(4)), ("g", Bits(4)), ("u", _PK[k1]()), ("w", _PK[k2]())]),
-            6, 8, "P", *sorted({"move"} if ("al2" in (k1, k2) or "sh1" in (k1, k2)) else set()))
+            6, 7, "P", *sorted({"move"} if ("al2" in (k1, k2) or "sh1" in (k1, k2)) else set()))
 
 
 # ----------------------------------------------------------------------------- G: shapes the code generator groups
